@@ -191,6 +191,7 @@ PROPS = {
         "plan": [{"engine": "hubnet", "perturb": True, "perturb_mode": "sleep", "perturb_scale": 0.5, "timeout": {"quick": 1200, "thorough": 7200}, "shards": 12, "env": {"VERIF_SCALE_OTHERS": "0.25"}},
                  {"engine": "wsconn", "timeout": T_SIM, "env": {"VERIF_SCALE": "0.3"}},
                  {"engine": "shipsim2", "timeout": T_SIM, "env": {"VERIF_SCALE": "0.3"}},
+                 {"engine": "shipsim1", "timeout": T_SIM},
                  {"engine": "mdnssim", "timeout": T_SIM, "env": {"VERIF_SCALE": "0.3"}},
                  {"engine": "timers", "timeout": T_SIM, "env": {"VERIF_SCALE": "0.3"}}],
         "rule": 'all engines under the Go race detector: hubnet stress profile (3 hubs full mesh, 9 application goroutines issuing register/unregister/disconnect/cancel/pairing detail/service lookup/auto-accept/send/QR concurrently with Start, connection establishment, handshakes, echo traffic, TCP cuts, mDNS hide/show/re-announce storms and one hub shutting down) plus the pair/C02/C15 scenarios, the real-time multi-writer websocket scenarios, two-endpoint bubbles with concurrent senders, mdns manager/avahi bubbles and timer programs; a report counts if one of the two stacks has a non-test ship-go frame; de-duplicated by the innermost library functions of the two accesses; distinct = overlapping (operation, operation) pairs observed + scenario classes exercised under -race',
